@@ -28,7 +28,10 @@ def docs():
                 children=[SEC("abs1", "*", "one"), MSEC("abs2", "+", "twos"), SEC("abs1", "fixed")])
     d3 = SCHEMA(types=[ABS("abs1"), TYPE("box", [MSEC("abs1", "*", "items")])],
                 children=[MSEC("box", "*", "boxes"), SEC("abs1", "+", "named")])
-    return [d1, d2, d3]
+    # the schema itself imports one of the packages: %import of it is redundant, of another one is not
+    d4 = SCHEMA(types=[ABS("abs1"), schemas.IMPORT("zcvpkg_a"), TYPE("t1", [], implements="abs1")],
+                children=[MSEC("abs1", "*", "impls")])
+    return [d1, d2, d3, d4]
 
 
 LINES = {
@@ -37,6 +40,7 @@ LINES = {
     1: ["%import zcvpkg_a", "%import zcvpkg_c", "%import zcvmod_plain", "%import zcvpkg_missing", "<pa1 n1/>",
         "<pc1 n2/>", "<pa1 fixed/>", "<t2 n3/>", "<pa2/>", "%import zcvpkg_a."],
     2: ["%import zcvpkg_a", "%import zcvpkg_b", "<box>", "</box>", "<pa1 n1/>", "<pb1/>", "<pa1/>", "%import zcvpkg_c"],
+    3: ["%import zcvpkg_a", "%import zcvpkg_b", "<pa1 n1/>", "<pb1 n2/>", "<pa2/>", "<t1/>", "%import zcvpkg_nocomp"],
 }
 
 
